@@ -8,7 +8,7 @@ agree (R-SORT, when available). NOT decided: any arithmetic.
 
 from __future__ import annotations
 
-from ..rules import r_bind, r_dispatch, r_sort
+from ..rules import r_batch, r_bind, r_dispatch, r_sort, r_world
 from . import common
 
 SPEC = {
@@ -74,11 +74,14 @@ def run_family(db, res, tier, prop, extra=None):
   res.extra["index_space_checks"] = {"indices_examined": ns, "with_known_space": nknown}
   if nknown < spec.get("floor_sort", 20):
     res.error(f"floor index-space checks: {nknown} < {spec.get('floor_sort', 20)}")
+  tags = r_world.discover_tags(list(db.launch_ctxs()) + list(scope))
+  nb, _ = r_batch.check_batch(res, scope, tags)
+  res.extra["batched_model_accesses"] = nb
   nd = r_dispatch.check_dispatch(res, db.sm, spec["enums"], spec["areas"])
   res.floor("dispatch obligations", nd, 3)
   if extra is not None:
     extra(db, res, tier, scope)
-  res.rule_text = "R-SORT: an index whose index space is known (thread index over a model extent, value of an index-valued model array, address + offset) is never used in an array dimension of a different space; R-BIND: each launch formal named after a schema field is bound to that field (or a temp/ctx array/tabled pair), ranks agree, read-only Data formals are not written; R-DISPATCH: every enum member the stage dispatches on is still referenced in the areas where the confirmed baseline handles it"
+  res.rule_text = "R-BATCH: every batched Model field the stage kernels touch is indexed by the thread's world index modulo that field's own leading extent; R-SORT: an index whose index space is known (thread index over a model extent, value of an index-valued model array, address + offset) is never used in an array dimension of a different space; R-BIND: each launch formal named after a schema field is bound to that field (or a temp/ctx array/tabled pair), ranks agree, read-only Data formals are not written; R-DISPATCH: every enum member the stage dispatches on is still referenced in the areas where the confirmed baseline handles it"
   res.explanation = (
     f"Structural necessary conditions of {prop} for the {spec['what']}: the kernels reachable from {', '.join(spec['entries'])} read and write the arrays "
     "they are declared to (a swapped pair of same-typed launch arguments compiles and passes any test that does not vary both fields), no type member lost its handler, and index spaces (body / joint / dof / qpos / geom / ... ids) are not mixed - a bug class that fixtures hide whenever the spaces coincide numerically (hinge-only models have jntid == dofid == qposadr). "
